@@ -1,6 +1,7 @@
 (* C14 — Behaviour is independent of index type, shard count, I/O type and limits. *)
 From KV Require Import Bytes GenConsts Chunk Record Engine Script AMapLemmas EngineInv EngineBatch
-  EngineRefine EngineLog EngineRecover EngineCrash EngineOpen EngineAdopt EngineMerge EngineKeep EngineMergeRun Index IndexProofs.
+  EngineRefine EngineLog EngineRecover EngineCrash EngineOpen EngineAdopt EngineMerge EngineKeep EngineMergeRun Index IndexProofs ShardProofs.
+From Coq Require Import ZArith.
 Open Scope N_scope.
 
 (* two scripts that differ only in the configurations their restarts reopen with *)
@@ -101,6 +102,37 @@ Proof.
   cbv zeta. split; congruence.
 Qed.
 Print Assumptions C14_iteration_independent_of_index_type_and_sharding.
+
+(* Shard count: for EVERY requested ShardNum (Go int: zero, negative, beyond the maximum included)
+   NewShardedIndex runs with 2^k shards, k <= 10, at least as many as requested unless the maximum of 1024
+   is reached, and the shard that locateShard computes for any hash (hash & (n-1)) exists. *)
+Theorem C14_every_requested_shard_count_gives_a_usable_index :
+  forall cap : Z,
+  let n := next_power_of_two cap in
+  (exists k, (0 <= k <= 10)%Z /\ n = (2 ^ k)%Z) /\ (cap <= n \/ n = 1024)%Z /\
+  forall hash : N, (0 <= shard_of_hash n hash < n)%Z.
+Proof. exact shard_count_spec. Qed.
+Print Assumptions C14_every_requested_shard_count_gives_a_usable_index.
+
+(* Point operations: for the same index content, ANY two assignments of keys to shards and ANY two requested
+   shard counts, every sequence of Put / Get / Delete / Size on the sharded index returns the same results -
+   those of the one ordered map the engine model uses - and leaves the shards of the same map. *)
+Theorem C14_index_operations_independent_of_sharding :
+  forall shf1 cap1 shf2 cap2 ix ops, AMapLemmas.sorted ix ->
+  let n1 := Z.to_nat (next_power_of_two cap1) in let n2 := Z.to_nat (next_power_of_two cap2) in
+  sh_run shf1 n1 (shards_of shf1 n1 false ix) ops = (shards_of shf1 n1 false (fst (flat_run ix ops)), snd (flat_run ix ops)) /\
+  sh_run shf2 n2 (shards_of shf2 n2 false ix) ops = (shards_of shf2 n2 false (fst (flat_run ix ops)), snd (flat_run ix ops)).
+Proof.
+  intros shf1 cap1 shf2 cap2 ix ops Hs. cbv zeta. split.
+  - exact (sharded_refines_flat shf1 _ (shard_count_positive cap1) ops ix Hs).
+  - exact (sharded_refines_flat shf2 _ (shard_count_positive cap2) ops ix Hs).
+Qed.
+Print Assumptions C14_index_operations_independent_of_sharding.
+
+Example C14_shard_counts :
+  map next_power_of_two [0; -1; -1099511627776; 1; 2; 3; 16; 17; 1000; 1024; 1025; 5000; 1099511627776]%Z
+  = [1; 1; 1; 1; 2; 4; 16; 32; 1024; 1024; 1024; 1024; 1024]%Z.
+Proof. vm_compute. reflexivity. Qed.
 
 Example C14_nonvacuous :
   map erase [OpPut [1] [2]; OpRestart (mkCfg 64 1 0 1); OpGet [1]]
